@@ -110,6 +110,12 @@ def levelsOf (N : Nat) : Except Err (List Int) := do
 def getLevel (ls : List Level) (i : Int) : Option Level := ls.find? (·.lev == i)
 def setLevel (ls : List Level) (lvl : Level) : List Level := ls.map fun x => if x.lev == lvl.lev then lvl else x
 
+/-- `maps[i]` (KeyError when the level does not exist) -/
+def getLevelE (ls : List Level) (i : Int) : Except Err Level :=
+  match getLevel ls i with
+  | some l => .ok l
+  | none => .error .keyError
+
 /-- `for i in levels: maps[i] = _divide_to_buckets(...)` (a repeated level is simply assigned again) -/
 def initLevels (N : Nat) : List Int → List Level → Except Err (List Level)
   | [], acc => .ok acc
@@ -124,6 +130,27 @@ def initLevels (N : Nat) : List Int → List Level → Except Err (List Level)
 def addTo (l : List (List Entry)) (x : Nat) (es : List Entry) : List (List Entry) :=
   l.mapIdx fun j b => if j = x then b ++ es else b
 
+/-- `H(F_k1(w) ‖ count)`: the hash-table key of chunk `count` of keyword `w` -/
+def htKey (k1 w : Bytes) (count : Nat) : Except Err Bytes := do
+  let tag ← cfg.prfF.call lv.hmac k1 w
+  hashH cfg lv (tag ++ natToBytesMin count)
+
+/-- `[i ‖ x] ⊕ H(F_k2(w) ‖ count)` -/
+def htVal (k2 w : Bytes) (count i x : Nat) : Except Err Bytes := do
+  let half := cfg.dsz / 2
+  let ib ← intToBytesNat i half
+  let xb ← intToBytesNat x (cfg.dsz - half)
+  let vtag ← cfg.prfF.call lv.hmac k2 w
+  let mask ← hashH cfg lv (vtag ++ natToBytesMin count)
+  bytesXor (ib ++ xb) mask
+
+/-- the hash-table update for one chunk (nothing for an empty chunk: the inner loop does not run) -/
+def htInsert (k1 k2 w : Bytes) (count i x : Nat) (c : List Bytes) (HT : Table) : Except Err Table :=
+  if c.isEmpty then .ok HT else do
+    let key ← htKey cfg lv k1 w count
+    let v ← htVal cfg lv k2 w count i x
+    pure (tinsert HT key v)
+
 /-- one keyword: place its chunks -/
 def placeChunks (k1 k2 : Bytes) (w : Bytes) (i : Nat) : List (List Bytes) → Nat → Level → Table → Tape →
     Except Err (Level × Table × Tape)
@@ -135,16 +162,7 @@ def placeChunks (k1 k2 : Bytes) (w : Bytes) (i : Nat) : List (List Bytes) → Na
     let (x, t1) ← takeNat t
     if !cands.contains x then throw .miss
     let lvl1 : Level := { lvl with buckets := addTo lvl.buckets x (c.map fun id => some (w, id)) }
-    let HT1 ← if c.isEmpty then pure HT else do
-      let tag ← cfg.prfF.call lv.hmac k1 w
-      let key ← hashH cfg lv (tag ++ natToBytesMin count)
-      let half := cfg.dsz / 2
-      let ib ← match intToBytesNat i half with | .ok b => pure b | .error _ => throw .overflowError
-      let xb ← match intToBytesNat x (cfg.dsz - half) with | .ok b => pure b | .error _ => throw .overflowError
-      let vtag ← cfg.prfF.call lv.hmac k2 w
-      let mask ← hashH cfg lv (vtag ++ natToBytesMin count)
-      let v ← match bytesXor (ib ++ xb) mask with | .ok v => pure v | .error _ => throw .indexError
-      pure (tinsert HT key v)
+    let HT1 ← htInsert cfg lv k1 k2 w count i x c HT
     let lvl2 : Level := { lvl1 with remaining := lvl1.remaining.mapIdx fun j r => if j = x then r - c.length else r }
     placeChunks k1 k2 w i rest count lvl2 HT1 t1
 
@@ -153,7 +171,7 @@ def encDb (k1 k2 : Bytes) (levels : List Int) : DB → List Level → Table → 
   | (w, ids) :: rest, ls, HT, t => do
     let i ← findAdjacent cfg levels ids.length
     if i < 0 then throw .typeError                       -- chunks(lst, 2 ** negative): range() refuses a float step
-    let lvl ← match getLevel ls i with | some l => pure l | none => throw .keyError
+    let lvl ← getLevelE ls i
     let cw ← chunks ids (2 ^ i.toNat)
     let (lvl', HT', t') ← placeChunks cfg lv k1 k2 w i.toNat cw 0 lvl HT t
     encDb k1 k2 levels rest (setLevel ls lvl') HT' t'
@@ -197,7 +215,7 @@ def finishBuckets (k3 : Bytes) : List (List Entry) → List Nat → Tape → Exc
 def finishLevels (k3 : Bytes) : List Int → List Level → List (Int × List Bytes) → Tape → Except Err (List (Int × List Bytes) × Tape)
   | [], _, A, t => .ok (A, t)
   | i :: rest, ls, A, t => do
-    let lvl ← match getLevel ls i with | some l => pure l | none => throw .keyError
+    let lvl ← getLevelE ls i
     let (bs, arr, t1) ← finishBuckets cfg lv k3 lvl.buckets lvl.remaining t
     let A' := if (A.lookup i).isSome then A.map fun p => if p.1 == i then (i, arr) else p else A ++ [(i, arr)]
     finishLevels k3 rest (setLevel ls { lvl with buckets := bs }) A' t1
@@ -233,25 +251,36 @@ def scanBucket (etag : Bytes) : List Bytes → List Bytes
       else scanBucket etag rest
     | .error _ => scanBucket etag rest
 
+/-- `[i, offset] ← evalue ⊕ H(vtag ‖ count)` -/
+def decodeVal (vtag : Bytes) (count : Nat) (ev : Bytes) : Except Err (Nat × Nat) := do
+  let mask ← hashH cfg lv (vtag ++ natToBytesMin count)
+  let io ← bytesXor ev mask
+  pure (intFromBytes (io.take (cfg.dsz / 2)), intFromBytes (io.drop (cfg.dsz / 2)))
+
+/-- `A_dict[i][offset]` (KeyError for an unknown level, IndexError past the last bucket) -/
+def lookupBucket (edb : DP17EDB) (i off : Nat) : Except Err Bytes :=
+  match edb.A.lookup (i : Int) with
+  | none => .error .keyError
+  | some arr =>
+    match arr[off]? with
+    | none => .error .indexError
+    | some bucket => .ok bucket
+
+/-- one probe of the hash table: nothing when the key is absent, else the identifiers found in the bucket it names -/
+def searchOne (edb : DP17EDB) (vtag etag : Bytes) (count : Nat) (key : Bytes) : Except Err (List Bytes) :=
+  match edb.HT.get key with
+  | none => .ok []
+  | some ev => do
+    let (i, off) ← decodeVal cfg lv vtag count ev
+    let bucket ← lookupBucket edb i off
+    let es ← chunks bucket cfg.cipherLen
+    pure (scanBucket cfg lv etag es)
+
 def searchCounts (edb : DP17EDB) (tag vtag etag : Bytes) : Nat → Nat → Except Err (List Bytes)
   | 0, _ => .ok []
   | more + 1, count => do
     let key ← hashH cfg lv (tag ++ natToBytesMin count)
-    let here ← match edb.HT.get key with
-      | none => pure []
-      | some ev => do
-        let mask ← hashH cfg lv (vtag ++ natToBytesMin count)
-        let io ← match bytesXor ev mask with | .ok v => pure v | .error _ => throw .indexError
-        let i := intFromBytes (io.take (cfg.dsz / 2))
-        let off := intFromBytes (io.drop (cfg.dsz / 2))
-        match edb.A.lookup (i : Int) with
-        | none => throw .keyError
-        | some arr =>
-          match arr[off]? with
-          | none => throw .indexError
-          | some bucket => do
-            let es ← chunks bucket cfg.cipherLen
-            pure (scanBucket cfg lv etag es)
+    let here ← searchOne cfg lv edb vtag etag count key
     let rest ← searchCounts edb tag vtag etag more (count + 1)
     pure (here ++ rest)
 
